@@ -24,6 +24,14 @@ class SimError(Exception):
         return not FALSY[0]
 
 
+class SimStop(StopIteration):
+    """A StopIteration carried by a future as its error (an exhausted next() inside a service)."""
+
+    def __init__(self, tag):
+        StopIteration.__init__(self, tag)
+        self.tag = tag
+
+
 class OddEq(object):
     def __init__(self, n):
         self.n = n
